@@ -190,7 +190,16 @@ class Eval:
             x = a.x if self._bit(k, L.xbit) else 0
             six = a.six if self._bit(k, L.sixbit) else 0
             ks = k & L.SMASK
-            s = a.s if ks == L.SMASK else ((0, 0) if ks == 0 else ((0, 0) if a.s == (0, 0) else None))
+            if ks == L.SMASK:
+                s = a.s
+            elif ks == 0 or a.s == (0, 0):
+                s = (0, 0)
+            elif a.s is not None and a.s[0] == a.s[1]:
+                # exact count and a partial mask: evaluate the bits
+                v = ((a.s[0] << L.ubit) & ks) >> L.ubit
+                s = (v, v)
+            else:
+                s = None
             kr = k & L.RMASK
             if kr == L.RMASK:
                 rest = a.rest
